@@ -56,6 +56,6 @@ class SpecFilter:
             raise ERR_TYPES[err](err_message(item))
 
 
-def table_of(items, force_gen=False):
-    """case['items'] -> table for SpecFilter"""
-    return {i: (list(it["outs"]), it.get("err"), bool(it.get("gen", True) or force_gen)) for i, it in enumerate(items)}
+def table_of(items, force_gen=False, base=0):
+    """case['items'] -> table for SpecFilter (item ids start at `base`)"""
+    return {base + i: (list(it["outs"]), it.get("err"), bool(it.get("gen", True) or force_gen)) for i, it in enumerate(items)}
